@@ -22,7 +22,7 @@ RULE = ("case = (indicator config, degenerate-biased stream, timeframe none|coll
         "walk with a spliced degenerate window at least look-back long, and >= 1 reading was written. distinct: case digest.")
 ASSUMPTIONS = [
     "well-formed streams only: finite positive prices, low<=open,close<=high, volume>=0, non-decreasing timestamps",
-    "input_value is a price field (or volume where a zero input is meaningful); ROC/STOCH/KC/Supertrend are not fed volume",
+    "input_value is a price field (or volume where a zero input is meaningful; ROC/STOCH/KC/Supertrend are not fed volume), or - in 'chained' cases - the late-starting output of another shipped indicator registered before it",
     "Supertrend long/short are checked as the union 'exactly one present' (alternation is their meaning)",
 ]
 DEGENERATE = ["flat", "flat_runs", "plateau", "trend_up", "trend_down", "zero_vol", "zero_vol_start", "flat_start", "mono_start", "equal_vol"]
@@ -38,7 +38,32 @@ def floors(tier):
     return {"distinct_nontrivial": 300, "classes_seen": 20, "contract_evaluations": 10000, "columns_checked": 300}
 
 
+CHAIN_SOURCES = [({"cls": "RSI", "kw": {"period": 5}}, "RSI_5"), ({"cls": "ATR", "kw": {"period": 4}}, "ATR_4"), ({"cls": "EMA", "kw": {"period": 6}}, "EMA_6"),
+                 ({"cls": "SMA", "kw": {"period": 10}}, "SMA_10"), ({"cls": "TR", "kw": {}}, "TR"), ({"cls": "ROC", "kw": {"period": 7}}, "ROC"),
+                 ({"cls": "MACD", "kw": {"fast_period": 3, "slow_period": 7, "signal_period": 4}}, "MACD_3_7_4.signal"),
+                 ({"cls": "STOCH", "kw": {"period": 5}}, "STOCH_5.d"), ({"cls": "BBANDS", "kw": {"period": 6}}, "BBANDS_6.BBL"),
+                 ({"cls": "OBV", "kw": {}}, "OBV"), ({"cls": "StandardDeviation", "kw": {"period": 5}}, "STDEV_5")]
+CHAIN_CONSUMERS = ["SMA", "EMA", "RMA", "WMA", "HMA", "StandardDeviation", "BBANDS", "KC", "MACD", "ROC", "RSI", "STOCH", "StandardDeviationThreshold", "TSI"]
+
+
 def gen_case(rng, tier, idx):
+    if rng.random() < 0.1:
+        # a shipped indicator fed by another shipped indicator's (late-starting, possibly zero or negative) output
+        src, sname = rng.choice(CHAIN_SOURCES)
+        ccls = rng.choice(CHAIN_CONSUMERS)
+        if ccls == "ROC":
+            # a rate of change over a zero input is undefined (same exclusion as ROC over volume): strictly positive sources only
+            src, sname = rng.choice(CHAIN_SOURCES[2:4])
+        kw = configs.rand_kw(rng, ccls, allow_input=False, max_period=10)
+        kw["input_value"] = sname
+        if ccls == src["cls"] and "period" in kw and kw["period"] == src["kw"].get("period"):
+            kw["period"] = kw["period"] + 1
+        if ccls == "MACD":
+            kw["signal_period"] = max(5, kw["signal_period"])  # never the source's own name
+        n = rng.randint(80, 200)
+        fam = rng.choice(DEGENERATE + ["walk", "walk"])
+        rows = streams.make_rows(rng, n, fam, 60)
+        return {"cfg": {"cls": ccls, "kw": kw}, "source": src, "rows": rows, "schedule": schedules.rand_schedule(rng, n), "family": fam, "tfkind": "chained", "window": None}
     cfg = configs.rand_config(rng, max_period=20, amorph_share=0.08)
     lb = configs.lookback(cfg)
     n = rng.randint(max(30, 2 * lb + 10), max(60, 2 * lb + 10, 260))
@@ -102,10 +127,29 @@ def run_case(case):
             bad_writes.append((type(ind).__name__, ind.name, index if index else ind._active_index, reading))
 
     written = 0
+    def run_chained(mode):
+        from hexital import Hexital
+        from hxv.core import rows_to_candles
+        from hxv.drive import encode_chunk
+        members = [configs.build(case["source"]), configs.build(cfg)]
+        if mode == "batch":
+            hx = Hexital("h", rows_to_candles(rows), members)
+            hx.calculate()
+        else:
+            hx = Hexital("h", rows_to_candles(rows[:sch["preload"]]), members)
+            pos = sch["preload"]
+            for size in sch["chunks"]:
+                hx.append(encode_chunk(rows, pos, size, "candle"))
+                pos += size
+        return members[1]
+
     for mode in ("batch", "incremental"):
         with SetReadingMonitor(on_write) as mon:
             try:
-                ind = batch(cfg, rows) if mode == "batch" else run_schedule(cfg, rows, sch)
+                if case["tfkind"] == "chained":
+                    ind = run_chained(mode)
+                else:
+                    ind = batch(cfg, rows) if mode == "batch" else run_schedule(cfg, rows, sch)
                 exc = None
             except Exception as e:
                 exc, ind = e, None
